@@ -87,3 +87,62 @@ func TestReproUnmeteredStaticCallAfterIssue(t *testing.T) {
 		t.Fatalf("%d interpreter steps (cut off by the test at %d) ran on up to %d gas although the call was given %d gas", tr.unmetered, tr.limit, tr.maxGas, given)
 	}
 }
+
+// key atomicity/failed-frame-leaves-zero-token-entry
+//
+// A frame credits a token to an account that does not hold that token yet
+// (here: ISSUE 5 by a contract without decimals(), which makes evm.Call end the
+// frame with ExecutionReverted; TRANSFERTOKEN followed by REVERT does the same
+// to the receiver) and fails. stateObject.SetTokenBalance first inserts
+// Tokens[token] = 0 and journals prev = 0; the journal's revert writes the 0
+// back instead of removing the entry. Every getter reports the old state, but
+// as soon as the account record is written for any other reason in the same
+// block (here: it received 1 unit before the call) the record carries a
+// "token: 0" entry, and the state root differs from the root of the same
+// block without the failed frame.
+func TestReproZeroTokenEntryAfterFailedFrame(t *testing.T) {
+	if os.Getenv("VERIF_REPRO") != "1" {
+		t.Skip("set VERIF_REPRO=1 to run the direct reproduction")
+	}
+	code := (&asm{}).pushU(5).op(evm.ISSUE, evm.STOP).b
+	contract := common.HexToAddress("0xc0de000000000000000000000000000000000001")
+	origin := common.HexToAddress("0x0419000000000000000000000000000000000002")
+	db := state.NewDatabase(dbm.NewMemDB())
+	s0, _ := state.New(common.EmptyHash, db)
+	s0.SetCode(contract, code)
+	s0.SetNonce(contract, 1)
+	s0.SetBalance(origin, big.NewInt(10))
+	root, err := s0.Commit(false, 1)
+	if err != nil {
+		t.Fatal(err)
+	}
+	if err := db.TrieDB().Commit(root, false); err != nil {
+		t.Fatal(err)
+	}
+
+	// the block without the failing call: the contract receives 1 unit
+	ref, _ := state.New(root, db)
+	ref.AddBalance(contract, big.NewInt(1))
+	want := ref.IntermediateRoot(false)
+
+	// the same block with a failing call to the contract after that
+	s, _ := state.New(root, db)
+	s.AddBalance(contract, big.NewInt(1))
+	header := &types.Header{Height: 100, Time: 1600000000, GasLimit: 1 << 40}
+	vm := evm.NewEVM(evm.NewEVMContext(header, noChain{}, nil, config.EvmGasRate), s, evm.Config{})
+	vm.Reset(types.NewMessage(origin, &contract, common.EmptyAddress, 0, new(big.Int), 100000, big.NewInt(1), nil))
+	_, left, _, cerr := vm.Call(evm.AccountRef(origin), contract, common.EmptyAddress, nil, 100000, new(big.Int))
+	t.Logf("Call returned err=%v gasLeft=%d; GetTokenBalance(contract, contract)=%v", cerr, left, s.GetTokenBalance(contract, contract))
+	if cerr == nil {
+		t.Fatalf("the call was expected to fail (ISSUE without decimals())")
+	}
+	got := s.IntermediateRoot(false)
+	for _, a := range s.RawDump().Accounts {
+		if len(a.Tokens) > 0 {
+			t.Logf("account record after the failed frame: balance=%s tokens=%v", a.Balance, a.Tokens)
+		}
+	}
+	if got != want {
+		t.Fatalf("the failed frame left a state change behind: state root %x, without the failed call %x", got, want)
+	}
+}
